@@ -113,6 +113,18 @@ NEEDS = {
  'C17-J': ('temp file renamed over the target before it is closed', 'a crash or an I/O error between rename and close with buffered file data', 'strengthened: buffered file model (data reaches the disk at close) added as a selector'),
  'C20-I': ('reset of a connection skipped unless it is in a logging set that a single-module off empties', 'logging A on, logging B off, then *IDN? or disconnect', 'caught at once'),
  'C20-J': ('rotation keeps a cached file list', 'repeated rotations to the same file name after days without a record', 'strengthened: same-day rollovers added'),
+ 'C07-K': ('ingest remembers how far the buffer was scanned', 'a segment boundary inside a line and further short lines in the completing segment', 'caught at once'),
+ 'C07-L': ('frames encoded with ensure_ascii=False', 'an escaped lone surrogate echoed by a UTF-8 string parameter', 'caught at once'),
+ 'C09-K': ('datatype copy skipped for datatypes without own properties', 'tuple/struct/enum parameters with $ units or run-time member changes', 'caught at once'),
+ 'C09-L': ('multiple inheritance test looks at the direct bases only', 'a plain mixin listed after the owning class, a branch removing the parameter, two plain mixins', 'strengthened: mixin-after / two-plain-mixins / branch-removes hierarchies added'),
+ 'C11-K': ('final part of disconnect() under the client lock', 'the connection drops while connect() still waits for the description', 'strengthened: peer dropping in the middle of the handshake (single caller) added to C11_races'),
+ 'C11-L': ('transmit thread registers the request after sending it', 'reply arrives between send and registration', 'caught at once'),
+ 'C12-K': ('shorthand identifier resolution cached without the action', 'changed <module> and update <module> on one connection', 'caught at once'),
+ 'C12-L': ('ScaledInteger.export_value rounds with int(x + 0.5)', 'negative scaled values', 'strengthened: end-to-end case with a scaled parameter whose range includes negative values'),
+ 'C16-K': ('garbage flush hoisted before the wait_before pause', 'wait_before > 0 and a late line arriving during the pause', 'caught at once'),
+ 'C16-L': ('readline searches the terminator from a remembered offset', 'a multi byte terminator cut across a chunk boundary', 'caught at once'),
+ 'C19-K': ('disable decision counts characters instead of bytes', 'an equipment id with multi byte or escape-needing characters near the limit', 'caught at once'),
+ 'C19-L': ('raw byte pre-filter before JSON parsing', 'a request whose value is written with JSON escapes', 'strengthened: escaped spellings of the request added to the datagram catalogue'),
 }
 
 
